@@ -1,0 +1,88 @@
+//go:build verif
+
+// Contracts for the ByteStream handlers (C02, C16, C01, C18), checked by /verif (govc).
+// Comment-only file.
+//
+// Read is sequential and is verified as a whole (argument plumbing, no panic, read_limit).
+// Write runs its receive loop and the cache Put in two goroutines that talk over channels;
+// channel contents are not modelled, so only the obligations local to each function literal
+// are stated: what the receive loop checks before anything is stored, in which order, and
+// which digest the writer goroutine hands to the cache.
+
+package server
+
+// bsSent: payload bytes handed to ByteStream_ReadServer.Send by the current invocation.
+//@ ghost bsSent Int
+//@ iface (google.golang.org/genproto/googleapis/bytestream.ByteStream_ReadServer).Send(srv, m)
+//@   pure
+//@   gmodifies bsSent
+//@   gensures bsSent == old(bsSent) + len(m.Data)
+//@ iface (io.Reader).Read(r, p)
+//@   modifies elems(p)
+//@   ensures 0 <= result0 && result0 <= len(p)
+
+//@ func (s *grpcServer) Read(req *bytestream.ReadRequest, resp bytestream.ByteStream_ReadServer) error
+//@   serves C02 C14
+//@   requires s != nil && s.cache != nil && s.accessLogger != nil && s.errorLogger != nil && resp != nil
+//@   noframe
+//@   lensures[C02] readlimit: (cmp == 0 && req != nil && req.ReadLimit > 0) ==> bsSent - old(bsSent) <= req.ReadLimit
+//@   call Cache.Get#* asserts[C02] plain: cmp == 0 && arg2 == 1 && arg3 == hash && arg4 == size && arg5 == req.ReadOffset && 0 <= req.ReadOffset && req.ReadOffset <= size && size > 0
+//@   call Cache.GetZstd#* asserts[C02] zstd: cmp == 1 && arg2 == hash && arg3 == size && arg4 == req.ReadOffset && 0 <= req.ReadOffset && req.ReadOffset <= size && size > 0
+//@   loop 0 invariant[C02] budget: (limitedSend ==> (0 <= sendLimitRemaining && bsSent - old(bsSent) == req.ReadLimit - sendLimitRemaining)) && len(buf) > 0 && rc != nil && req != nil
+//@   loop 0 modifies bsSent, elems(buf), chunkResp.Data
+
+//@ extern strings.Split(s, sep)
+//@   pure
+//@   ensures len(result) >= 1
+//@ extern strconv.ParseInt(s, base, bitSize)
+//@   pure
+
+// Resource names: a successfully parsed name yields a non-negative size, a well-formed hash and the
+// compression named in it (0 = blobs/, 1 = compressed-blobs/zstd/).
+//@ func (s *grpcServer) parseReadResource(name string, errorPrefix string) (string, int64, casblob.CompressionType, error)
+//@   serves C02 C14 C16
+//@   requires s != nil && s.accessLogger != nil
+//@   ensures[C02] parsed: result3 == nil ==> (result1 >= 0 && (result2 == 0 || result2 == 1) &&
+//@       ((result1 == 0 && result0 == "e3b0c44298fc1c149afbf4c8996fb92427ae41e4649b934ca495991b7852b855") || (result1 != 0 && len(result0) == 64)))
+
+//@ func (s *grpcServer) parseWriteResource(r string) (string, int64, casblob.CompressionType, error)
+//@   serves C16 C14
+//@   requires s != nil && s.accessLogger != nil
+//@   ensures[C16] parsed: result3 == nil ==> (result1 >= 0 && (result2 == 0 || result2 == 1) &&
+//@       ((result1 == 0 && result0 == "e3b0c44298fc1c149afbf4c8996fb92427ae41e4649b934ca495991b7852b855") || (result1 != 0 && len(result0) == 64)))
+
+// The receive loop of Write (a goroutine). Before anything is handed to the cache it has parsed the
+// resource name, refused sizes above the limit and asked the cache whether the blob exists; the
+// "non-zero write_offset" refusal comes after (and only without) a positive answer.
+//@ iface (google.golang.org/genproto/googleapis/bytestream.ByteStream_WriteServer).Recv(srv)
+//@   pure
+//@   ensures result1 == nil ==> result0 != nil
+//@ extern (*io.PipeWriter).Write(w, data)
+//@   pure
+//@ func (s *grpcServer) Write$1()
+//@   serves C16
+//@   requires s != nil && s.cache != nil && s.accessLogger != nil && srv != nil
+//@   noframe
+//@   nosafety
+//@   call parseWriteResource#* asserts[C16] firstmessage: firstIteration && arg1 == req.ResourceName && req.ResourceName != ""
+//@   loop 0 invariant firstprobe: firstIteration ==> probeN == old(probeN)
+//@   call Cache.Contains#* asserts[C16] probe: firstIteration && arg2 == 1 && arg3 == hash && arg4 == size
+//@   call Printf#2 asserts[C16] offsetafterprobe: probeN == old(probeN) + 1 && !probeFound && req.WriteOffset != 0
+//@   call Write#* asserts[C16] payload: arg1 == req.Data && (firstIteration ==> (probeN == old(probeN) + 1 && !probeFound && req.WriteOffset == 0))
+
+// The goroutine that stores the blob: the digest parsed from the resource name, in the CAS.
+//@ func (s *grpcServer) Write$1$1()
+//@   serves C16 C01
+//@   requires s != nil && s.cache != nil && srv != nil
+//@   noframe
+//@   nosafety
+//@   call Cache.Put#* asserts[C01,C16] declared: arg2 == 1 && arg3 == hash && arg4 == size && arg5 == rc
+
+//@ func (s *grpcServer) QueryWriteStatus(ctx context.Context, req *bytestream.QueryWriteStatusRequest) (*bytestream.QueryWriteStatusResponse, error)
+//@   serves C16 C14
+//@   requires s != nil && s.cache != nil && s.accessLogger != nil && ctx != nil
+//@   modifies probeN, probeFound
+//@   ensures[C14] oneof: (result1 == nil) <==> (result0 != nil)
+//@   ensures[C16] complete: result1 == nil ==> (probeN == old(probeN) + 1 && (result0.Complete <==> probeFound) && (!probeFound ==> result0.CommittedSize == 0))
+//@   call Cache.Contains#* asserts[C16] probe: arg2 == 1 && arg3 == hash && arg4 == size
+//@   lensures[C16] fullsize: (result1 == nil && probeFound) ==> result0.CommittedSize == size
